@@ -268,6 +268,9 @@ impl RaftWal<FileWriter> {
         }
 
         let file = File::open(path)?;
+        // A record can never be longer than what is left in the file.
+        let file_len = file.metadata().map_or(u64::MAX, |m| m.len());
+        let mut consumed = 0u64;
         let mut reader = BufReader::new(file);
         let mut count = 0;
         let mut detected_format: Option<bool> = None; // None = unknown, Some(true) = V2, Some(false) = V1
@@ -293,6 +296,14 @@ impl RaftWal<FileWriter> {
             // Detect format on first entry, then use consistently
             let is_v2 = *detected_format
                 .get_or_insert_with(|| !Self::looks_like_bincode_start(checksum_buf));
+
+            // Torn or corrupt length prefix: never allocate more than the file can hold.
+            consumed += 8;
+            let needed = if is_v2 { len as u64 } else { (len as u64).saturating_sub(4) };
+            if needed > file_len.saturating_sub(consumed) {
+                break;
+            }
+            consumed += needed;
 
             if is_v2 {
                 // V2: skip the remaining payload bytes
@@ -551,6 +562,9 @@ impl<W: WalWriter> RaftWal<W> {
     /// Returns an error if reading fails or a checksum mismatch is detected.
     pub fn replay_with_validation(&self, verify_checksums: bool) -> io::Result<Vec<RaftWalEntry>> {
         let file = File::open(&self.path)?;
+        // A record can never be longer than what is left in the file.
+        let file_len = file.metadata().map_or(u64::MAX, |m| m.len());
+        let mut consumed = 0u64;
         let mut reader = BufReader::new(file);
         let mut entries = Vec::new();
         let mut entry_index = 0u64;
@@ -578,6 +592,14 @@ impl<W: WalWriter> RaftWal<W> {
             let is_v2 = *detected_format.get_or_insert_with(|| {
                 !RaftWal::<FileWriter>::looks_like_bincode_start(checksum_buf)
             });
+
+            // Torn or corrupt length prefix: never allocate more than the file can hold.
+            consumed += 8;
+            let needed = if is_v2 { len as u64 } else { (len as u64).saturating_sub(4) };
+            if needed > file_len.saturating_sub(consumed) {
+                break;
+            }
+            consumed += needed;
 
             let data = if is_v2 {
                 // V2: checksum_buf contains CRC32, read payload separately
